@@ -88,7 +88,7 @@ def _rand_time(rng):
 
 def _extras(rng):
     """dimensions added by hardening (absent keys mean the old behaviour, so old replays stay valid)"""
-    return {'tz': rng.choice([None, None, 0]), 'us': rng.choice([0, 0, 1, 500000, 999999]),
+    return {'tz': rng.choice([None, None, 0, 0, 5, -8, 5.75, 14, -12]), 'us': rng.choice([0, 0, 1, 500000, 999999]),
             'local_off': rng.choice([-11, -5, 1, 9, 14]), 'kn_form': rng.choice(['list', 'list', 'str', 'wire'])}
 
 
@@ -116,7 +116,7 @@ def _sweep(rng, tier):
             while (y2, mo2, d2) <= (y, mo, d):
                 y2 += 28
             b = [y2, mo2, d2] + list(rng.choice(HMS))
-            common = {'issuer': rng.choice(FAST_ISSUERS), 'tz': rng.choice([None, 0]), 'us': rng.choice([0, 999999]),
+            common = {'issuer': rng.choice(FAST_ISSUERS), 'tz': rng.choice([None, 0, 9, -3.5]), 'us': rng.choice([0, 999999]),
                       'issuer_id': rng.choice([['text', 'ca'], ['comp', '0802' + b'ca'.hex()]]),
                       'kn_form': rng.choice(['list', 'str', 'wire'])}
             yield _base(rng, fn='derive', start=a, expire=_secs(a, b), **common)
@@ -314,11 +314,16 @@ def run_impl(case):
             else:
                 kind, val = case['issuer_id']
                 iid = val if kind == 'text' else bytes.fromhex(val)
-                start = _dt.datetime(*case['start'], us, tzinfo=_dt.timezone.utc if case.get('tz') == 0 else None)
+                # case['start'] is the requested instant in UTC; 'tz': None = naive, 0 = aware UTC, other = the same
+                # instant expressed in a zone that many hours from UTC (fixed in /repo: written as UTC)
+                start = _dt.datetime(*case['start'], us, tzinfo=None if case.get('tz') is None else _dt.timezone.utc)
+                if case.get('tz'):
+                    start = start.astimezone(_dt.timezone(_dt.timedelta(hours=case['tz'])))
                 name, wire = sv.derive_cert(key_name, iid, pub, rec, start, case['expire'])
                 issuer = _uri_comp(val) if kind == 'text' else bytes.fromhex(val)
                 t0 = case['start']
-                t1 = _fields(start + _dt.timedelta(seconds=case['expire']))
+                end = start + _dt.timedelta(seconds=case['expire'])
+                t1 = _fields(end if end.tzinfo is None else end.astimezone(_dt.timezone.utc))
             wire = bytes(wire)
             out['made'] = ['ok', wire.hex()]
             out['name'] = [bytes(c).hex() for c in name]
